@@ -41,7 +41,7 @@ def c19(ctx: Ctx):
         ctx.exhaustive = True
     ctx.build_driver()
     logp = os.path.join(ctx.scratch, "log.ndjson")
-    ctx.drive(cases, logp, env={"VERIF_VALS": vals})
+    ctx.drive(cases, logp, env={"VERIF_VALS": vals}, shards=8)
     rng = random.Random(ctx.seed)
     fields = {}
     for l in open(logp):
